@@ -8,20 +8,20 @@ Definition nact (s : state) := length s.(actors).
 Definition enabled_list (s : state) : list nat := filter (fun a => enabled G s a = true) (seq 0 (nact s)).
 
 (* pseudo-random scheduler: linear congruential choice among the enabled actors; returns the final state and the trace *)
-Fixpoint rrun (fuel : nat) (seed : nat) (s : state) (acc : list nat) : state * list nat * bool :=
+Fixpoint rrun (fuel : nat) (seed : N) (s : state) (acc : list nat) : state * list nat * bool :=
   match fuel with
   | 0 => (s, rev acc, false)
   | S n => match enabled_list s with
            | [] => (s, rev acc, true)
-           | en => let seed' := (seed * 1103 + 12345) mod 65521 in
-                   let a := default 0 (en !! ((seed' / 7) mod length en)) in
+           | en => let seed' := ((seed * 1103 + 12345) mod 65521)%N in
+                   let a := default 0 (en !! (N.to_nat ((seed' / 7) mod N.of_nat (length en))%N)) in
                    match step G s a with
                    | Some s' => rrun n seed' s' (a :: acc)
                    | None => (s, rev acc, false)
                    end
            end
   end.
-Definition final (scripts : list (list cop)) npool nev seed := rrun 2000 seed (init scripts npool nev) [].
+Definition final (scripts : list (list cop)) npool nev (seed : nat) := rrun 2000 (N.of_nat seed) (init scripts npool nev) [].
 Definition complete (s : state) : bool :=
   bool_decide (s.(qs) = Idle) && bool_decide (s.(jobs) = []) &&
   forallb (fun ac => match ac.(stack) with [FTop []] | [FPIdle] => true | _ => false end) s.(actors).
@@ -39,3 +39,43 @@ Example sim_sync : all_ok P2 0 1 200 = true. Proof. vm_compute. reflexivity. Qed
 (* 3. poll context: the awaiting task drains the queue itself (no pool runner) *)
 Definition P3 := [[OFuture [PAwait 0; PTouch] UAwait]; [OFire 0]].
 Example sim_poll : all_ok P3 0 1 200 = true. Proof. vm_compute. reflexivity. Qed.
+
+(* did some state along the run satisfy p? *)
+Fixpoint rsee (p : state -> bool) (fuel : nat) (seed : N) (s : state) : bool :=
+  p s || match fuel with
+  | 0 => false
+  | S n => match enabled_list s with
+           | [] => false
+           | en => let seed' := ((seed * 1103 + 12345) mod 65521)%N in
+                   let a := default 0 (en !! (N.to_nat ((seed' / 7) mod N.of_nat (length en))%N)) in
+                   match step G s a with Some s' => rsee p n seed' s' | None => false end
+           end
+  end.
+Definition sees p scripts npool nev (n : nat) : bool :=
+  existsb (fun seed => rsee p 2000 (N.of_nat seed) (init scripts npool nev)) (seq 0 n).
+Definition q_is (st : qstate) (s : state) : bool := bool_decide (s.(qs) = st).
+Definition dw_is (st : dwstate) (s : state) : bool := existsb (fun c => bool_decide (c.1 = st)) s.(dws).
+
+(* the wake arrives during the poll / while parking (latched) / after parking, in each context *)
+Example see_pool_awoken : sees (q_is AwokenWhileRunning) P1 1 1 200 = true. Proof. vm_compute. reflexivity. Qed.
+Example see_pool_parked : sees (q_is WaitingForWake) P1 1 1 200 = true. Proof. vm_compute. reflexivity. Qed.
+Example see_sync_awoken : sees (q_is AwokenWhileRunning) P2 0 1 200 = true. Proof. vm_compute. reflexivity. Qed.
+Example see_sync_parked : sees (q_is WaitingForUnpark) P2 0 1 200 = true. Proof. vm_compute. reflexivity. Qed.
+Example see_poll_woken_early : sees (dw_is DWWoken) P3 0 1 200 = true. Proof. vm_compute. reflexivity. Qed.
+Example see_poll_willwake : sees (dw_is DWWillWake) P3 0 1 200 = true. Proof. vm_compute. reflexivity. Qed.
+Example see_poll_parked : sees (q_is (WaitingForPoll 0)) P3 0 1 200 = true. Proof. vm_compute. reflexivity. Qed.
+
+(* 4. two futures on one queue awaited by two tasks, two events, a pool runner racing the pollers *)
+Definition P4 := [[OFuture [PAwait 0] UAwait]; [OFuture [PAwait 1; PTouch] UAwait]; [OFire 1; OFire 0]].
+Example sim_two_futures : all_ok P4 1 2 300 = true. Proof. vm_compute. reflexivity. Qed.
+(* 5. stale waker: the job awaits event 0 twice over (await 0 then await 1): the registration with 0 from an earlier poll
+      context stays in the list of 1?  no - staleness arises when the SAME event is awaited from two polls in different contexts:
+      job polled by the poller (DrainWaker), poller drops the future, pool runner re-polls and registers WakeQueue as well *)
+Definition P5 := [[OFuture [PAwait 0; PAwait 1] (UDropAfter 2); ODesync]; [OFire 0; OFire 1]].
+Example sim_stale : all_ok P5 1 2 300 = true. Proof. vm_compute. reflexivity. Qed.
+(* 6. suspend / resume: a sync issued during the suspension, resumed by firing event 0 *)
+Definition P6 := [[ODesync; OSuspend 0 UAwait; OFire 0]; [OSync]].
+Example sim_suspend : all_ok P6 1 1 300 = true. Proof. vm_compute. reflexivity. Qed.
+(* 7. SchedulerFuture::sync() *)
+Definition P7 := [[OFuture [PAwait 0] USync; ODesync]; [OFire 0]].
+Example sim_fsync : all_ok P7 1 1 300 = true. Proof. vm_compute. reflexivity. Qed.
